@@ -139,6 +139,7 @@ def parse_obs(path):
             elif t == 'QUIET2': blk['quiet2'] = f[1] == '1'
             elif t == 'WF': blk['wf'] = f[1] == '1'
             elif t == 'PROBE': blk['probe'] = [tuple(x.split('=')) for x in f[1:]]
+            elif t == 'VCOM': blk['vcom'] = dict((int(x.split(':')[0]), x.split(':')[1:]) for x in f[1:])
     return hs
 
 # ---------------------------------------------------------------- helpers over a history
@@ -350,6 +351,15 @@ def oracle_C10(hi, ops, obs):
         for p in b['pend']:
             if p[2] != '0' or p[3] != '1':
                 out.append(Viol(hi, b['h'], 'pending-fixed-fields', f"{p}"))
+        # admission moves exactly that application into the validator set: a validator that was a pending application after
+        # the previous block carries the commission rates and the minimum self-delegation of that application
+        if 'vcom' in b:
+            was = dict((int(p[0]), p) for p in (prev.get('pend') or []))
+            for op, vc in b['vcom'].items():
+                if op in was and op not in (prev.get('vals') or {}):
+                    sub = was[op][4].split(',')[5:8]
+                    if vc[:3] != sub or vc[3] != '1':
+                        out.append(Viol(hi, b['h'], 'admitted-differs-from-application', f"op {op}: application rates {sub} min-self 1, validator {vc}"))
         ops_seen = [p[0] for p in b['pend']] + [str(o) for o in b['vals']]
         keys_seen = [p[1] for p in b['pend']] + [str(v['key']) for v in b['vals'].values()]
         if len(set(ops_seen)) != len(ops_seen) or len(set(keys_seen)) != len(keys_seen):
@@ -453,6 +463,14 @@ def oracle_C14(hi, ops, obs):
             if res == 'ok' and pv is not None and pv['status'] == 3 and not pv['jailed'] and pv['last'] is not None and not touched \
                     and PR <= P < 2**63 and P // PR == pv['last']:
                 out.append(Viol(hi, b['h'], 'same-power-accepted', f"tx {i} op {op} power {P} (voting power stays {pv['last']})"))
+            # … and only such a request: an unsafe assignment of a different voting power, within the domain, to a bonded
+            # un-jailed validator that nothing in this block has touched can fail for no other reason
+            touched_ok = any(int(lf.args[0]) == op for k2, t2 in enumerate(ob['txs'][:i]) if k2 < len(b['txr']) and b['txr'][k2] == 'ok'
+                             for m2 in t2['msgs'] for lf in m2.flat()
+                             if lf.kind in ('SETPOWER', 'REMOVE', 'UNJAIL') and lf.args and lf.args[0].lstrip('-').isdigit())
+            if res != 'ok' and not tx.get('gov') and pv is not None and pv['status'] == 3 and not pv['jailed'] and pv['last'] is not None \
+                    and not touched_ok and PR <= P < 2**63 and P // PR != pv['last'] and m.args[2] == '1':
+                out.append(Viol(hi, b['h'], 'different-power-rejected', f"tx {i} op {op} power {P} (voting power {pv['last']}) -> {res}"))
         if b['halt'] or not b['vals']: continue
         # exact conversion for the last successful assignment of each validator in the block
         final = {}
@@ -474,6 +492,11 @@ def oracle_C15(hi, ops, obs):
         if j == 0 or (b['halt'] and not b['txr']): continue
         ob = ops['blocks'][j-1]
         prev = obs[j-1]
+        # the fixed fields of every queued application: no tokens, minimum self-delegation 1, whatever the message asked for
+        for p in (b.get('pend') or []):
+            if p[2] != '0' or p[3] != '1':
+                out.append(Viol(hi, b['h'], 'pending-fixed-fields', f"{p}"))
+        if out: break
         if 'par' not in prev: continue
         minc = int(prev['par'][5])
         for i, tx in enumerate(ob['txs']):
